@@ -11,7 +11,7 @@ What is PROVED here (for all vectors over any ordered field with a square root, 
 
 * `Gen.V2/V3/V4.length tmin tmax sqrt v = sqrt (v·v)` for every `v` and every `tmin` — on both sides of the
   `dot < 2*tmin` threshold; the `lengthTiny` branch `max * sqrt (Σ (xᵢ/max)²)` equals `sqrt (Σ xᵢ²)` and returns
-  0 only when every component is 0 (`Lemmas/C08Lemmas.lean`, `Lemmas/C08LemmasV4.lean`: 5 / 65 / 257 paths);
+  0 only when every component is 0 (`Lemmas/C08Lemmas.lean`, `Lemmas/C08LemmasV4.lean`: 9 / 129 / 513 paths);
 * `length v = 0 ↔ v = 0`;  `length2 v = dot v v`;
 * all six normalize forms return `v / ‖v‖` for `v ≠ 0` (`IsNormalizedN`: `‖v‖ > 0`, `rᵢ = vᵢ/‖v‖`, `r·r = 1`,
   `rᵢ‖v‖ = vᵢ`, `rᵢ` has the sign of `vᵢ`), `normalize`/`normalized` return the zero vector for `0`, and the
@@ -46,7 +46,7 @@ theorem V2_dot_self (a : V2 α) : Gen.C08.V2.dot a a = dotSelf2 a := by
   try ring
 
 /-- `Vec2::length()` — the real body with `lengthTiny` inlined — is `sqrt (v·v)` for every vector and every
-threshold parameter `tmin`, i.e. on BOTH sides of `dot < 2*tmin`. -/
+pair of limit parameters `tmin`, `tmax`, i.e. on EVERY side of the guard `dot < 2*tmin || dot > tmax`. -/
 theorem V2_length_spec (tmin tmax : α) (hsqrt : ∀ x, 0 ≤ x → sqrt x * sqrt x = x ∧ 0 ≤ sqrt x) (a : V2 α) :
     Gen.V2.length tmin tmax sqrt a = sqrt (Gen.C08.V2.dot a a) := by
   rw [V2_length_eq tmin tmax hsqrt a, V2_dot_self]; rfl
@@ -212,7 +212,7 @@ theorem V3_dot_self (a : V3 α) : Gen.C08.V3.dot a a = dotSelf3 a := by
   try ring
 
 /-- `Vec3::length()` — the real body with `lengthTiny` inlined — is `sqrt (v·v)` for every vector and every
-threshold parameter `tmin`, i.e. on BOTH sides of `dot < 2*tmin`. -/
+pair of limit parameters `tmin`, `tmax`, i.e. on EVERY side of the guard `dot < 2*tmin || dot > tmax`. -/
 theorem V3_length_spec (tmin tmax : α) (hsqrt : ∀ x, 0 ≤ x → sqrt x * sqrt x = x ∧ 0 ≤ sqrt x) (a : V3 α) :
     Gen.V3.length tmin tmax sqrt a = sqrt (Gen.C08.V3.dot a a) := by
   rw [V3_length_eq tmin tmax hsqrt a, V3_dot_self]; rfl
@@ -378,7 +378,7 @@ theorem V4_dot_self (a : V4 α) : Gen.C08.V4.dot a a = dotSelf4 a := by
   try ring
 
 /-- `Vec4::length()` — the real body with `lengthTiny` inlined — is `sqrt (v·v)` for every vector and every
-threshold parameter `tmin`, i.e. on BOTH sides of `dot < 2*tmin`. -/
+pair of limit parameters `tmin`, `tmax`, i.e. on EVERY side of the guard `dot < 2*tmin || dot > tmax`. -/
 theorem V4_length_spec (tmin tmax : α) (hsqrt : ∀ x, 0 ≤ x → sqrt x * sqrt x = x ∧ 0 ≤ sqrt x) (a : V4 α) :
     Gen.V4.length tmin tmax sqrt a = sqrt (Gen.C08.V4.dot a a) := by
   rw [V4_length_eq tmin tmax hsqrt a, V4_dot_self]; rfl
@@ -566,30 +566,38 @@ theorem V4_normalized_real (tmin tmax : ℝ) (a : V4 ℝ) (ha : a ≠ ⟨0, 0, 0
     IsNormalized4 Real.sqrt a (Gen.C08.V4.normalized tmin tmax Real.sqrt a) :=
   V4_normalized_of_ne_zero tmin tmax hsqrt_real a ha
 
-/-! ## non-vacuity: concrete vectors on both sides of the threshold -/
+/-! ## non-vacuity: concrete vectors on every branch (direct / underflow guard / overflow guard) -/
 
-/-- (3,4) ↦ 5 through the direct branch (`25 < 2*1` is false) -/
-example : Gen.V2.length 1 Real.sqrt ⟨3, 4⟩ = 5 := by
-  rw [V2_length_eq 1 hsqrt_real]; exact sqrt_unique hsqrt_real (by norm_num) (by norm_num)
-example : ¬ (Gen.C08.V2.dot (⟨3, 4⟩ : V2 ℝ) ⟨3, 4⟩ < 2 * 1) := by norm_num [Gen.C08.V2.dot]
-/-- (3,4) ↦ 5 through the `lengthTiny` branch (`25 < 2*100`): `4 * sqrt ((3/4)² + 1) = 5` -/
-example : Gen.V2.length 100 Real.sqrt ⟨3, 4⟩ = 5 := by
-  rw [V2_length_eq 100 hsqrt_real]; exact sqrt_unique hsqrt_real (by norm_num) (by norm_num)
+/-- (3,4) ↦ 5 through the direct branch (`25 < 2*1` and `1000 < 25` are both false) -/
+example : Gen.V2.length 1 1000 Real.sqrt ⟨3, 4⟩ = 5 := by
+  rw [V2_length_eq 1 1000 hsqrt_real]; exact sqrt_unique hsqrt_real (by norm_num) (by norm_num)
+example : ¬ (Gen.C08.V2.dot (⟨3, 4⟩ : V2 ℝ) ⟨3, 4⟩ < 2 * 1) ∧ ¬ ((1000 : ℝ) < Gen.C08.V2.dot (⟨3, 4⟩ : V2 ℝ) ⟨3, 4⟩) := by
+  norm_num [Gen.C08.V2.dot]
+/-- (3,4) ↦ 5 through the `lengthTiny` branch taken for underflow (`25 < 2*100`): `4 * sqrt ((3/4)² + 1) = 5` -/
+example : Gen.V2.length 100 1000 Real.sqrt ⟨3, 4⟩ = 5 := by
+  rw [V2_length_eq 100 1000 hsqrt_real]; exact sqrt_unique hsqrt_real (by norm_num) (by norm_num)
 example : Gen.C08.V2.dot (⟨3, 4⟩ : V2 ℝ) ⟨3, 4⟩ < 2 * 100 := by norm_num [Gen.C08.V2.dot]
+/-- (3,4) ↦ 5 through the `lengthTiny` branch taken for OVERFLOW of the squares (`tmax = 10 < 25`, `25 < 2*1` false) -/
+example : Gen.V2.length 1 10 Real.sqrt ⟨3, 4⟩ = 5 := by
+  rw [V2_length_eq 1 10 hsqrt_real]; exact sqrt_unique hsqrt_real (by norm_num) (by norm_num)
+example : ¬ (Gen.C08.V2.dot (⟨3, 4⟩ : V2 ℝ) ⟨3, 4⟩ < 2 * 1) ∧ (10 : ℝ) < Gen.C08.V2.dot (⟨3, 4⟩ : V2 ℝ) ⟨3, 4⟩ := by
+  norm_num [Gen.C08.V2.dot]
 /-- a tiny vector below the threshold: (3/1000, 4/1000) with `tmin = 1/1000` has length 1/200 -/
-example : Gen.V2.length (1 / 1000) Real.sqrt ⟨3 / 1000, 4 / 1000⟩ = 1 / 200 := by
-  rw [V2_length_eq _ hsqrt_real]; exact sqrt_unique hsqrt_real (by norm_num) (by norm_num)
+example : Gen.V2.length (1 / 1000) 1000 Real.sqrt ⟨3 / 1000, 4 / 1000⟩ = 1 / 200 := by
+  rw [V2_length_eq _ _ hsqrt_real]; exact sqrt_unique hsqrt_real (by norm_num) (by norm_num)
 example : Gen.C08.V2.dot (⟨3 / 1000, 4 / 1000⟩ : V2 ℝ) ⟨3 / 1000, 4 / 1000⟩ < 2 * (1 / 1000) := by
   norm_num [Gen.C08.V2.dot]
-/-- (2,-3,6) ↦ 7 and (1,-2,2,4) ↦ 5, negative components, either side of the threshold -/
-example : Gen.V3.length 1 Real.sqrt ⟨2, -3, 6⟩ = 7 ∧ Gen.V3.length 1000 Real.sqrt ⟨2, -3, 6⟩ = 7 := by
-  constructor <;> (rw [V3_length_eq _ hsqrt_real]; exact sqrt_unique hsqrt_real (by norm_num) (by norm_num))
-example : Gen.V4.length 1 Real.sqrt ⟨1, -2, 2, 4⟩ = 5 ∧ Gen.V4.length 1000 Real.sqrt ⟨1, -2, 2, 4⟩ = 5 := by
-  constructor <;> (rw [V4_length_eq _ hsqrt_real]; exact sqrt_unique hsqrt_real (by norm_num) (by norm_num))
+/-- (2,-3,6) ↦ 7 and (1,-2,2,4) ↦ 5, negative components: direct, underflow-guard and overflow-guard branches -/
+example : Gen.V3.length 1 1000 Real.sqrt ⟨2, -3, 6⟩ = 7 ∧ Gen.V3.length 1000 2000 Real.sqrt ⟨2, -3, 6⟩ = 7 ∧
+    Gen.V3.length 1 10 Real.sqrt ⟨2, -3, 6⟩ = 7 := by
+  refine ⟨?_, ?_, ?_⟩ <;> (rw [V3_length_eq _ _ hsqrt_real]; exact sqrt_unique hsqrt_real (by norm_num) (by norm_num))
+example : Gen.V4.length 1 1000 Real.sqrt ⟨1, -2, 2, 4⟩ = 5 ∧ Gen.V4.length 1000 2000 Real.sqrt ⟨1, -2, 2, 4⟩ = 5 ∧
+    Gen.V4.length 1 10 Real.sqrt ⟨1, -2, 2, 4⟩ = 5 := by
+  refine ⟨?_, ?_, ?_⟩ <;> (rw [V4_length_eq _ _ hsqrt_real]; exact sqrt_unique hsqrt_real (by norm_num) (by norm_num))
 /-- normalising (3,-4) gives (3/5,-4/5); the hypothesis `a ≠ 0` of the `_of_ne_zero` theorems is satisfiable -/
-example : Gen.C08.V2.normalized 1 Real.sqrt ⟨3, -4⟩ = ⟨3 / 5, -4 / 5⟩ := by
+example : Gen.C08.V2.normalized 1 1000 Real.sqrt ⟨3, -4⟩ = ⟨3 / 5, -4 / 5⟩ := by
   have h5 : Real.sqrt (dotSelf2 (⟨3, -4⟩ : V2 ℝ)) = 5 := sqrt_unique hsqrt_real (by norm_num) (by norm_num [dotSelf2])
-  rw [V2_normalized_eq 1 hsqrt_real, h5]
+  rw [V2_normalized_eq 1 1000 hsqrt_real, h5]
 example : (⟨3, -4⟩ : V2 ℝ) ≠ ⟨0, 0⟩ := by simp
 example : (⟨0, 0, 1 / 2⟩ : V3 ℝ) ≠ ⟨0, 0, 0⟩ := by simp
 example : (⟨0, -1, 0, 0⟩ : V4 ℝ) ≠ ⟨0, 0, 0, 0⟩ := by simp
